@@ -318,6 +318,26 @@ def run(ctx, rep):
     C15.declared_total_rules(F, rep, "C09")
     from rules import castlib
     rep.floor("C09.cast", "narrowing casts inspected", castlib.cast_audit(ctx, rep, "C09", ['encode.rs', 'lib.rs']), 4)
+    # the MD5 in STREAMINFO is of the PCM that was encoded: a function that both hashes samples and fills the frame to encode takes the
+    # two from the same stretch of its buffer (same source fields, same trimming arithmetic)
+    npairs = 0
+    for hb in F.bodies:
+        if hb.promoted is not None or not hb.file.endswith("encode.rs"):
+            continue
+        us = [t for _, t in hb.calls() if re.search(r"encode::update_md5$", callee_name(t))]
+        fs = [t for _, t in hb.calls() if re.search(r"Frame::fill_from_\w+$", callee_name(t))]
+        if len(us) != 1 or len(fs) != 1:
+            continue
+        npairs += 1
+        su, sf = backward_slice(hb, us[0]["a"][1]), backward_slice(hb, fs[0]["a"][1])
+        ar = lambda sl: {o.replace("WithOverflow", "").replace("Unchecked", "") for o in sl["ops"]}
+        rep.check("C09.md5", "%s hashes exactly the samples it encodes" % strip_generics(hb.path), ar(su) == ar(sf) and su["fields"] == sf["fields"], loc_of(hb, us[0]),
+                  "md5 from %s %s / frame from %s %s" % (sorted(su["fields"]), sorted(ar(su)), sorted(sf["fields"]), sorted(ar(sf))),
+                  "the samples hashed (%s, %s) are not the stretch of the buffer that is encoded (%s, %s): STREAMINFO's MD5 covers samples that never reach the stream (or misses some)" % (
+                      sorted(su["fields"]), sorted(ar(su)) or "untrimmed", sorted(sf["fields"]), sorted(ar(sf)) or "untrimmed"))
+    rep.floor("C09.md5", "functions that hash and encode from one buffer", npairs, 4)
+    # the metadata region rewritten at finalize is as long as first written only if every block of the list is written both times
+    compose(ctx, rep, "C11", "C09.blocks", r"^C11\.frame$", key_only=r"every block handed to write_blocks")
 
 
 def _deep(body, o, depth=6):
